@@ -1,4 +1,5 @@
 import SpecVerif.Model.C13
+import Mathlib.Data.List.Nodup
 /-!
 # Helper lemmas for C13 (KeyedList). Property theorems live in `Props/C13.lean`.
 -/
@@ -134,4 +135,127 @@ theorem pyInsert_length (xs : List α) (x : α) : pyInsert xs (Int.ofNat xs.leng
   unfold pyInsert pyInsPos
   simp
 
+end SpecVerif.C13
+
+namespace SpecVerif.C13
+open SpecVerif.Py
+variable {α κ : Type} [DecidableEq α] [DecidableEq κ]
+
+/-! ### more plain-list lemmas (set / eraseIdx / findIdx?) -/
+
+theorem getElem?_of_pyIdx {xs : List α} {i : Int} {k : Nat} (h : pyIdx xs.length i = some k) :
+    ∃ x, xs[k]? = some x := by
+  have := pyIdx_lt h
+  exact ⟨xs[k], by simp [this]⟩
+
+theorem mem_set_iff_of_get {xs : List α} {k : Nat} {old x y : α} (hk : xs[k]? = some old)
+    (hnd : ∀ j, xs[j]? = some old → j = k) :
+    y ∈ xs.set k x ↔ y = x ∨ (y ∈ xs ∧ y ≠ old) := by
+  have hlt : k < xs.length := by
+    rcases Nat.lt_or_ge k xs.length with h | h
+    · exact h
+    · simp [List.getElem?_eq_none h] at hk
+  constructor
+  · intro hy
+    rcases List.getElem_of_mem hy with ⟨j, hj, rfl⟩
+    simp only [List.length_set] at hj
+    rw [List.getElem_set]
+    by_cases hjk : k = j
+    · simp [hjk]
+    · simp only [hjk, if_false]
+      right
+      refine ⟨List.getElem_mem _, ?_⟩
+      intro heq
+      have : xs[j]? = some old := by simp [hj, heq]
+      exact hjk (hnd j this).symm
+  · rintro (rfl | ⟨hy, hne⟩)
+    · exact List.mem_iff_getElem.2 ⟨k, by simpa using hlt, by simp⟩
+    · rcases List.getElem_of_mem hy with ⟨j, hj, rfl⟩
+      have hjk : k ≠ j := by
+        intro h; subst h
+        have : xs[k]? = some xs[k] := by simp [hj]
+        rw [this] at hk; cases hk; exact hne rfl
+      exact List.mem_iff_getElem.2 ⟨j, by simpa using hj, by simp [List.getElem_set, hjk]⟩
+
+end SpecVerif.C13
+
+namespace SpecVerif.C13
+open SpecVerif.Py
+variable {α κ : Type} [DecidableEq α] [DecidableEq κ]
+
+theorem mem_eraseIdx_of_nodup : ∀ (xs : List α) (k : Nat) (hk : k < xs.length), xs.Nodup →
+    ∀ y, y ∈ xs.eraseIdx k ↔ y ∈ xs ∧ y ≠ xs[k]
+  | [], k, hk, _, _ => by simp at hk
+  | a :: t, 0, _, hnd, y => by
+    simp only [List.eraseIdx_cons_zero, List.mem_cons, List.getElem_cons_zero]
+    have hat : a ∉ t := (List.nodup_cons.1 hnd).1
+    constructor
+    · intro hy; exact ⟨Or.inr hy, fun h => hat (h ▸ hy)⟩
+    · rintro ⟨h | h, hne⟩
+      · exact absurd h hne
+      · exact h
+  | a :: t, k + 1, hk, hnd, y => by
+    have hk' : k < t.length := by simpa using hk
+    have hat : a ∉ t := (List.nodup_cons.1 hnd).1
+    have ih := mem_eraseIdx_of_nodup t k hk' (List.nodup_cons.1 hnd).2 y
+    simp only [List.eraseIdx_cons_succ, List.mem_cons, List.getElem_cons_succ, ih]
+    constructor
+    · rintro (h | ⟨h, hne⟩)
+      · subst h; exact ⟨Or.inl rfl, fun h => hat (h ▸ List.getElem_mem _)⟩
+      · exact ⟨Or.inr h, hne⟩
+    · rintro ⟨h | h, hne⟩
+      · exact Or.inl h
+      · exact Or.inr ⟨h, hne⟩
+
+theorem nodup_of_nodup_map_key (key : α → κ) {xs : List α} (h : (xs.map key).Nodup) : xs.Nodup :=
+  List.Nodup.of_map key h
+
+/-- In a list with unique keys, an item is determined by its key. -/
+theorem eq_of_key_eq (key : α → κ) {xs : List α} (h : (xs.map key).Nodup) {x y : α}
+    (hx : x ∈ xs) (hy : y ∈ xs) (hk : key x = key y) : x = y :=
+  List.inj_on_of_nodup_map h hx hy hk
+
+/-- With unique keys, the first item whose key is `k` is the only one. -/
+theorem findIdx?_key_eq_some_iff (key : α → κ) {xs : List α} (h : (xs.map key).Nodup) (k : κ) (i : Nat) :
+    xs.findIdx? (fun x => key x == k) = some i ↔ ∃ x, xs[i]? = some x ∧ key x = k := by
+  induction xs generalizing i with
+  | nil => simp
+  | cons a t ih =>
+    simp only [List.map_cons, List.nodup_cons] at h
+    rw [List.findIdx?_cons]
+    by_cases hak : key a = k
+    · simp only [hak, beq_self_eq_true, if_true]
+      constructor
+      · intro hi; cases hi; exact ⟨a, by simp, hak⟩
+      · rintro ⟨x, hx, hxk⟩
+        cases i with
+        | zero => rfl
+        | succ j =>
+          simp only [List.getElem?_cons_succ] at hx
+          have : x ∈ t := List.mem_of_getElem? hx
+          exact absurd (List.mem_map.2 ⟨x, this, hxk.trans hak.symm⟩) h.1
+    · have hb : (key a == k) = false := by simpa using hak
+      simp only [hb, Bool.false_eq_true, if_false, Option.map_eq_some_iff]
+      constructor
+      · rintro ⟨j, hj, rfl⟩
+        obtain ⟨x, hx, hxk⟩ := (ih h.2 j).1 hj
+        exact ⟨x, by simpa using hx, hxk⟩
+      · rintro ⟨x, hx, hxk⟩
+        cases i with
+        | zero => simp at hx; subst hx; exact absurd hxk hak
+        | succ j =>
+          exact ⟨j, (ih h.2 j).2 ⟨x, by simpa using hx, hxk⟩, rfl⟩
+
+theorem findIdx?_key_eq_none_iff (key : α → κ) (xs : List α) (k : κ) :
+    xs.findIdx? (fun x => key x == k) = none ↔ ∀ x ∈ xs, key x ≠ k := by
+  simp [List.findIdx?_eq_none_iff]
+
+end SpecVerif.C13
+
+namespace SpecVerif.C13
+variable {α : Type}
+theorem perm_set_eraseIdx (xs : List α) (k : Nat) (hk : k < xs.length) (x : α) :
+    (xs.set k x).Perm (x :: xs.eraseIdx k) := by
+  rw [List.set_eq_take_append_cons_drop, if_pos hk, List.eraseIdx_eq_take_drop_succ]
+  exact List.perm_middle
 end SpecVerif.C13
